@@ -70,6 +70,13 @@ def check_case(lines, obs):
             sv, iv, ov = [[pv(x) for x in p.split(" ") if x] for p in parts]
             d = dsets[t[3]]
             stocks.append((t[1], t[2], Arr(d, sv), Arr(d, iv), Arr(d, ov)))
+        elif t[0] == "sys_scale":
+            q = pv(t[1])
+            for f in flows:
+                f[3].data = {k: (v if v == "nan" else v * q) for k, v in f[3].data.items()}
+            for s_ in stocks:
+                for a_ in s_[2:5]:
+                    a_.data = {k: (v if v == "nan" else v * q) for k, v in a_.data.items()}
         elif t[0] == "balance" and ob.startswith("ok "):
             # the balance of every process: all its contributions, each summed to the dimensions
             # common to all of them (in the order of the first one), added up by label
